@@ -270,6 +270,17 @@ def rule_fresh(check):
                 st = c.get("self_ty") or c["path"]
                 if ty.split("::")[-1] == st.split("<")[0].split("::")[-1]:
                     sites.append((f, n))
+        if not sites:
+            # the constructor under another name (`new` <-> `default` <-> `impl Default`): any associated or
+            # trait function of the type that yields a value of the type from arguments that hold none
+            tn = ty.split("::")[-1]
+            base_ = lambda t_: (t_ or "").lstrip("&").replace("mut ", "").split("<")[0].split("::")[-1]
+            for f, n, c in prog.call_sites():
+                if n.get("k") != "Call" or f.rec.get("gen") or c.get("kind") != "AssocFn" or base_(n.get("ty")) != tn:
+                    continue
+                owner = c.get("self_ty") or ((c.get("gargs") or [""])[0] if c.get("trait") else "")
+                if base_(owner) == tn and not any(base_(hir.peel(a).get("ty")) == tn for a in hir.call_args(n)) and base_(f.rec.get("self_ty")) != tn:
+                    sites.append((f, n))
         # a helper that is only ever called from the reviewed per-call functions is as per-call as they are
         callers = set()
         for f, _ in sites:
